@@ -13,7 +13,8 @@
 (*  euler : |y_n - Exact(t_n)| <= KE * dt * (M/2) * G, M = max |d/dt f| along *)
 (*          the exact solution, estimated by TLC on the step grid          *)
 (*  pair  : run B (dynamic dimension) reproduces run A (static) item by    *)
-(*          item to 1e-12 relative                                         *)
+(*          item up to rounding-level differences (1e-10 * max(1,G))       *)
+(*  twin  : a complex run (CB) is as accurate as its real twin (RA)        *)
 (* lip is a declared constant of the generated problem (part of the input).*)
 (***************************************************************************)
 EXTENDS Integers, Sequences, FiniteSets, TLC, Json, IOUtils, F64, IvpMethods
@@ -24,9 +25,10 @@ KLB == FOfInt(atoi(IOEnv.VH_KLB))
 KG == FOfInt(atoi(IOEnv.VH_KG))
 KE == FOfInt(4)
 
-VARIABLES i, cc, prev, n, ref, mx
-vars == <<i, cc, prev, n, ref, mx>>
-Init == i = 0 /\ cc = [solver |-> "none"] /\ prev = <<>> /\ n = 0 /\ ref = <<>> /\ mx = <<F0, F0>>
+VARIABLES i, cc, prev, n, ref, mx, ab
+vars == <<i, cc, prev, n, ref, mx, ab>>
+\* ab = <<largest absolute global error of the current run, that of the preceding real twin run (pair "RA")>>
+Init == i = 0 /\ cc = [solver |-> "none"] /\ prev = <<>> /\ n = 0 /\ ref = <<>> /\ mx = <<F0, F0>> /\ ab = <<F0, F0, 0>>
 
 IsBdf == cc.solver \in {"bdf6", "bdf2"}
 
@@ -55,6 +57,13 @@ EulerM(t) ==
       e1 == Flow(cc.rhs, cc.t0, Re(cc.y0), FAdd(t, dt))
   IN FDiv(VDist(Rhs(cc.rhs, FAdd(t, dt), e1), Rhs(cc.rhs, t, e0)), dt)
 
+\* static / dynamic pairs: the adaptive paths may differ in the last bits (nalgebra sums a static and a dynamic
+\* vector's norm in different orders, which moves the controller's next step by an ulp), so items are compared up
+\* to rounding-level differences amplified over the interval, and only when both paths have the same length
+PairTol(e) == FMul(FMul(FOfDec("1e-10"), FMax(F1, G)), FAdd(F1, MaxAbsY(e.y)))
+PairMismatch(e) ==
+  cc.pair = "B" /\ n + 1 <= Len(ref) /\
+  ~(FLe(FAbs(FSub(ref[n + 1].t, e.t)), FMul(FOfDec("1e-10"), FAdd(F1, FAbs(e.t)))) /\ FLe(CDistV(e.y, ref[n + 1].y), PairTol(e)))
 ItemStep(e) ==
   \E local \in {DistFlow(prev.t, prev.y, e.t, e.y)}, global \in {DistFlow(cc.t0, cc.y0, e.t, e.y)} :
   LET h == FSub(e.t, prev.t)
@@ -65,21 +74,19 @@ ItemStep(e) ==
       gr == FDiv(global, gbound)
       bad == (IF cc.acc \in {"local", "both"} /\ ~FLe(local, lbound) THEN {"accepted_step_locally_accurate_to_tolerance"} ELSE {})
              \cup (IF cc.acc \in {"global", "both"} /\ ~FLe(global, gbound) THEN {"global_error_within_constant_times_tolerance"} ELSE {})
-             \cup (IF cc.pair = "B" /\ (n + 1 > Len(ref) \/
-                       (n + 1 <= Len(ref) /\ ~(ref[n + 1].t = e.t /\
-                           FLe(CDistV(e.y, ref[n + 1].y), FMul(FOfDec("1e-12"), FAdd(F1, MaxAbsY(e.y)))))))
-                   THEN {"dynamic_dimension_reproduces_static_solution"} ELSE {})
   IN /\ bad # {} => PrintT(<<"VIOL", i + 1, bad>>)
      /\ mx' = <<FMax(mx[1], IF FIsFinite(lr) THEN lr ELSE F0), FMax(mx[2], gr)>>
+     /\ ab' = <<FMax(ab[1], global), ab[2], ab[3] + (IF PairMismatch(e) THEN 1 ELSE 0)>>
 
 EulerItem(e) ==
   \* the first item is the initial state itself
-  IF n = 0 THEN UNCHANGED mx
+  IF n = 0 THEN UNCHANGED <<mx, ab>>
   ELSE LET global == VDist(Re(e.y), Flow(cc.rhs, cc.t0, Re(cc.y0), e.t))
            m == FMax(mx[1], EulerM(prev.t))
            bound == FAdd(FMul(FMul(KE, cc.dtmax), FMul(FMul(m, FHalf), G)), FOfDec("1e-12"))
        IN /\ ~FLe(global, bound) => PrintT(<<"VIOL", i + 1, {"euler_error_within_first_order_bound"}>>)
           /\ mx' = <<m, FMax(mx[2], FDiv(global, bound))>>
+          /\ ab' = <<ab[1], ab[2], ab[3] + (IF PairMismatch(e) THEN 1 ELSE 0)>>
 
 Milli(x) == IF FLe(x, FOfInt(2000000)) THEN FToInt(FMul(x, FOfInt(1000))) ELSE 2000000000
 
@@ -87,15 +94,21 @@ Step(e) ==
   CASE e.ev = "reset" ->
          /\ cc' = e /\ prev' = [t |-> e.t0, y |-> e.y0] /\ n' = 0 /\ mx' = <<F0, F0>>
          /\ ref' = IF e.pair = "B" THEN ref ELSE <<>>
+         /\ ab' = <<F0, IF e.pair = "CB" THEN ab[2] ELSE F0, 0>>
     [] e.ev = "item" ->
          /\ n' = n + 1 /\ prev' = [t |-> e.t, y |-> e.y] /\ UNCHANGED cc
          /\ ref' = IF cc.pair = "A" THEN Append(ref, [t |-> e.t, y |-> e.y]) ELSE ref
          /\ IF cc.solver = "euler" THEN EulerItem(e) ELSE ItemStep(e)
     [] e.ev = "end" ->
          /\ PrintT(<<"STAT", e.c, Milli(mx[1]), Milli(mx[2]), n>>)
-         /\ (cc.pair = "B" /\ n # Len(ref)) => PrintT(<<"VIOL", i + 1, {"dynamic_dimension_reproduces_static_solution"}>>)
+         /\ (cc.pair = "B" /\ n = Len(ref) /\ ab[3] > 0) => PrintT(<<"VIOL", i + 1, {"dynamic_dimension_reproduces_static_solution"}>>)
+         /\ (cc.pair = "B" /\ n # Len(ref)) => PrintT(<<"DRIFT", i + 1, "static and dynamic paths have different lengths">>)
+         \* a complex problem is solved as accurately as its equivalent real system (same settings, run just before)
+         /\ (cc.pair = "CB" /\ ~FLe(ab[1], FAdd(FMul(FOfInt(10), ab[2]), FMul(FOfInt(10), cc.tol))))
+               => PrintT(<<"VIOL", i + 1, {"complex_solved_as_accurately_as_equivalent_real_system"}>>)
+         /\ ab' = IF cc.pair = "RA" THEN <<ab[1], ab[1], 0>> ELSE ab
          /\ UNCHANGED <<cc, prev, n, ref, mx>>
-    [] OTHER -> UNCHANGED <<cc, prev, n, ref, mx>>
+    [] OTHER -> UNCHANGED <<cc, prev, n, ref, mx, ab>>
 
 Next == /\ i < Len(Obs)
         /\ i' = i + 1
